@@ -1,6 +1,7 @@
 //! parseq random ... : random Par/Seq trees built from the real nodes, gated dispatches -> ndjson trace
 //! parseq replay ... : TLC behaviours (tree, finish order, run sets) of MCParSeq forced on the real tree
 //! parseq build  ... : TLC-enumerated trees with access declarations -> real construction (Par::with outcomes, reads/writes)
+//! parseq wide   ... : par nodes whose children mention 60..100 distinct resource ids, clash on a late id
 //! parseq zoo    ... : trees that exist as compile-time types built with the real par!/seq! macros (gen/parseq_zoo.rs)
 //! (compiled only with the harness features `parallel` + `x-parseq`)
 
@@ -48,8 +49,9 @@ mod imp {
             "replay" => replay(&a),
             "build" => build(&a),
             "zoo" => zoo(&a),
+            "wide" => wide(&a),
             _ => {
-                eprintln!("usage: parseq random|replay|build|zoo ...");
+                eprintln!("usage: parseq random|replay|build|zoo|wide ...");
                 std::process::exit(2)
             }
         }
@@ -452,4 +454,96 @@ mod imp {
         j["samples"] = json!(samples);
         println!("{}", j);
     }
+    /// Par nodes whose children together mention MANY distinct resource ids (around and well beyond
+    /// 64), with the only clash (W/W, W/R, R/W) on the id that is collected last, next to wide nodes
+    /// without any clash (which must be accepted and are dispatched).
+    fn wide(a: &Args) {
+        let out = a.get("out").expect("--out");
+        let seed: u64 = a.num("seed", 1);
+        let tm = timing(a);
+        let mut rng = StdRng::seed_from_u64(seed);
+        let pools = Pools::new();
+        let mut w = BufWriter::new(File::create(out).unwrap());
+        let mut tot = Totals::default();
+        let leaf = |r: Vec<u32>, w: Vec<u32>| NodeSpec { kind: "leaf".into(), kids: vec![], r, w };
+        let inner = |kind: &str, kids: Vec<usize>| NodeSpec { kind: kind.into(), kids, r: vec![], w: vec![] };
+        let mut sizes: Vec<u32> = vec![61, 62, 63, 64, 65, 66];
+        sizes.push(rng.gen_range(67..=80));
+        sizes.push(rng.gen_range(81..=98));
+        let mut run = 0usize;
+        let mut samples = Vec::new();
+        for n in sizes {
+            for clash in ["none", "ww", "wr", "rw"] {
+                for shape in 0..3 {
+                    run += 1;
+                    let fill: Vec<u32> = (1..=n).collect();
+                    let x = n + 1;
+                    let y = n + 2;
+                    // first: the fillers (read) and its part of the clash; last: the other part
+                    let (first_r, first_w): (Vec<u32>, Vec<u32>) = match clash {
+                        "rw" => (fill.iter().copied().chain([x]).collect(), vec![]),
+                        _ => (fill.clone(), vec![x]),
+                    };
+                    let (last_r, last_w): (Vec<u32>, Vec<u32>) = match clash {
+                        "none" => (fill.iter().copied().take(5).collect(), vec![y]),
+                        "ww" => (vec![], vec![x]),
+                        "wr" => (vec![x], vec![y]),
+                        _ => (vec![], vec![x]),
+                    };
+                    let spec = match shape {
+                        // par![first, last]
+                        0 => TreeSpec(vec![inner("par", vec![2, 3]), leaf(first_r, first_w), leaf(last_r, last_w)]),
+                        // par![a, b, last]: the ids of `first` are spread over two children
+                        1 => {
+                            let cut = rng.gen_range(1..first_r.len());
+                            let (ra, rb) = first_r.split_at(cut);
+                            TreeSpec(vec![
+                                inner("par", vec![2, 3, 4]),
+                                leaf(ra.to_vec(), vec![]),
+                                leaf(rb.to_vec(), first_w),
+                                leaf(last_r, last_w),
+                            ])
+                        }
+                        // par![seq![a, b], par![last]]: subtrees on both sides
+                        _ => {
+                            let cut = rng.gen_range(1..first_r.len());
+                            let (ra, rb) = first_r.split_at(cut);
+                            TreeSpec(vec![
+                                inner("par", vec![2, 5]),
+                                inner("seq", vec![3, 4]),
+                                leaf(ra.to_vec(), first_w),
+                                leaf(rb.to_vec(), vec![]),
+                                inner("par", vec![6]),
+                                leaf(last_r, last_w),
+                            ])
+                        }
+                    };
+                    let ctx = PCtx::new();
+                    let mut evs = vec![json!({"ev":"reset","run":run,"mode":"dyn","debug":cfg!(debug_assertions),"tree":spec,
+                                              "wide":{"distinct_ids": spec.resources().len(), "clash": clash}})];
+                    tot.trees += 1;
+                    match build_logged(&spec, &ctx, &mut evs) {
+                        None => tot.with_panics += 1,
+                        Some(root) => {
+                            tot.built += 1;
+                            let mut r2 = StdRng::seed_from_u64(rng.gen());
+                            let threads = rng.gen_range(2..=4);
+                            drive(root, &spec, &ctx, &pools, threads, pick_caller(&mut rng), 1, vec![Sched::Random(&mut r2)], &tm, &mut evs, &mut tot);
+                        }
+                    }
+                    if samples.len() < 2 && clash != "none" && n >= 64 {
+                        samples.push(json!({"distinct_ids": spec.resources().len(), "clash": clash,
+                                            "events": evs.iter().skip(1).filter(|e| e["ev"] == "with" || e["ev"] == "built").map(brief).collect::<Vec<_>>()}));
+                    }
+                    tot.events += evs.len();
+                    write_events(&mut w, &evs);
+                }
+            }
+        }
+        w.flush().unwrap();
+        let mut j = tot.json();
+        j["samples"] = json!(samples);
+        println!("{}", j);
+    }
+
 }
